@@ -4,7 +4,7 @@
 # usage: repro.sh <path to txtpp binary> [F1|F2|F3|F4|F5a|F5b|F6 ...]
 # prints "<id> DEFECT" when the defect manifests, "<id> ok" when the repaired behaviour is seen.
 BIN=$(readlink -f "$1"); shift
-ALL="F1 F2 F3 F4 F5b F6"; [ $# -gt 0 ] && ALL="$*"
+ALL="F1 F2 F3 F4 F5b F6 F7"; [ $# -gt 0 ] && ALL="$*"
 T=$(mktemp -d /dev/shm/txtpp-repro.XXXXXX); trap 'rm -rf "$T"' EXIT
 for id in $ALL; do
   D="$T/$id"; mkdir -p "$D"; cd "$D"
@@ -27,6 +27,9 @@ for id in $ALL; do
   F6) mkdir -p a/b; ln -s .. a/b/up; printf 'x\n' > a/f.txt.txtpp
       timeout 10 "$BIN" -q -r a >/dev/null 2>&1; rc=$?
       if [ $rc -eq 124 ]; then echo "F6 DEFECT (recursive scan through a symlink to an ancestor never terminates)"; else echo "F6 ok (exit $rc)"; fi;;
+  F7) printf 'x\n' > my.file.txtpp.md
+      "$BIN" -q my.file.txtpp.md >/dev/null 2>&1
+      if [ -f my.file.md ] && [ ! -f my.md ]; then echo "F7 ok"; else echo "F7 DEFECT (my.file.txtpp.md produced $(ls | grep -v txtpp | tr '\n' ' ') instead of my.file.md)"; fi;;
   esac
   cd "$T"
 done
